@@ -11,6 +11,7 @@ type Line struct {
 	Ev Ev         `json:"ev"`
 	Cb []Callback `json:"cb"`
 	St *State     `json:"st"`
+	Dg string     `json:"dg"` // digest of the consensus state (raw store, balances, supply) - C20
 }
 
 type Recorder struct {
@@ -35,7 +36,7 @@ func (r *Recorder) Emit(ev Ev, cb []Callback, st *State) {
 	if cb == nil {
 		cb = []Callback{}
 	}
-	b, err := json.Marshal(Line{Ev: ev, Cb: cb, St: st})
+	b, err := json.Marshal(Line{Ev: ev, Cb: cb, St: st, Dg: st.dg})
 	if err != nil {
 		panic(err)
 	}
@@ -59,6 +60,9 @@ type History struct {
 	Reset Ev   `json:"reset"`
 	Ops   []Ev `json:"ops"`
 }
+
+// ObserveAtEnd: finish every replayed history with an observation of the query paths
+var ObserveAtEnd = true
 
 var PoolNames = []string{"o1", "o2", "p1", "p2", "p3", "c1", "c2", "w1"}
 
@@ -111,9 +115,31 @@ func StartHistory(rec *Recorder, reset Ev) *Chain {
 // the resulting event(s).  It returns the state after the step.
 func Step(c *Chain, rec *Recorder, op Ev) (applied bool) {
 	switch op.Name {
-	case "BeginEndBlock", "ExpireBatch", "Mid", "StartBatch", "reset", "Obs":
+	case "BeginEndBlock", "ExpireBatch", "Mid", "StartBatch", "reset":
 		// sub-steps are produced by the real EndBlocker, never requested
 		return false
+	case "PrepZeroHeight":
+		out := c.PrepZeroHeight()
+		ev := Ev{Name: "PrepZeroHeight", OK: out.OK, Panic: out.Panic, Err: out.Err}
+		c.normalise(&ev)
+		if rec != nil {
+			rec.Emit(ev, c.TakeCallbacks(), c.Project())
+		}
+		return true
+	case "Genesis":
+		ev := Ev{Name: "Genesis", OK: true, Gen: c.GenesisObs()}
+		c.normalise(&ev)
+		if rec != nil {
+			rec.Emit(ev, c.TakeCallbacks(), c.Project())
+		}
+		return true
+	case "Obs":
+		ev := Ev{Name: "Obs", OK: true, Obs: c.Observe()}
+		c.normalise(&ev)
+		if rec != nil {
+			rec.Emit(ev, c.TakeCallbacks(), c.Project())
+		}
+		return true
 	case "EndBlock":
 		dt := op.Dt
 		if dt <= 0 {
@@ -121,6 +147,9 @@ func Step(c *Chain, rec *Recorder, op Ev) (applied bool) {
 		}
 		emit := func(name string, id int, d int64) {
 			ev := Ev{Name: name, OK: true, ID: id, Dt: d}
+			if name == "StartBatch" {
+				ev.EvReqs = c.EvReqs
+			}
 			c.normalise(&ev)
 			if rec != nil {
 				rec.Emit(ev, c.TakeCallbacks(), c.Project())
@@ -168,6 +197,13 @@ func RunHistory(rec *Recorder, h History) *Chain {
 	c := StartHistory(rec, h.Reset)
 	for _, op := range h.Ops {
 		Step(c, rec, op)
+	}
+	stopped := false
+	for _, op := range h.Ops {
+		stopped = stopped || op.Name == "PrepZeroHeight"
+	}
+	if h.Reset.Tag != "" && len(h.Ops) > 0 && h.Ops[len(h.Ops)-1].Name != "Obs" && ObserveAtEnd && !stopped {
+		Step(c, rec, Ev{Name: "Obs"})
 	}
 	return c
 }
